@@ -116,6 +116,8 @@ fn main() {
                 srch::tree_events(&t, &cmds, &a.s("out", "."), a.n("shards", 16) as usize, a.n("depth", 3) as u8, a.n("budget", 200000), a.n("cap", 60000) as usize)
             }
         }
+        "famreplay" => misc::family_replay(&t, &a.s("in", "")),
+        "gamereplay" => misc::game_replay(&t, &a.s("in", "")),
         "slices" => misc::slice_events(&a.s("in", ""), &a.s("out", "")),
         "audit" => {
             let (n, distinct, zeros) = t.audit();
